@@ -784,4 +784,5 @@ def run(chk):
     common.wrapper_family_rule(chk, P, "C11", "emit_file::Filesystem", 1)
     from . import shapes
     shapes.non_members_rejected(chk, P, "C11.R10:non-members-rejected")
+    shapes.std_listing_files_only(chk, P, "C11.R3:std-listing-files-only")
     return chk
